@@ -146,7 +146,7 @@ def run(ctx):
                         "template print paths reach the escaper only through StringUtils::EscapeHTMLSpecialChars (checked by rendering in C01/C02 harness)"]
 
 
-MODES = ["var", "ptr", "arr", "loopval", "loopkey", "echo", "raw", "rawptr", "svar", "svarb"]
+MODES = ["var", "ptr", "ptr2", "ptr3", "rawptr2", "loopptr2", "svarptr2", "iifptr2", "arr", "loopval", "loopkey", "echo", "raw", "rawptr", "svar", "svarb"]
 
 
 def template_paths(ctx, drv, h_on, h_off, inputs):
@@ -173,7 +173,7 @@ def template_paths(ctx, drv, h_on, h_off, inputs):
                 if m == "echo":
                     src = [123, 118, 97, 114, 58] + u + [125]
                     exp_src.append(("esc", [src]))
-                elif m in ("raw", "rawptr"):
+                elif m in ("raw", "rawptr", "rawptr2"):
                     exp_src.append(("id", [u]))
                 elif m == "svar":
                     exp_src.append(("esc", [u, u]))
